@@ -9,4 +9,9 @@ Next == UNCHANGED x
 Spec == Init /\ [][Next]_x
 \* what Rebuild hands to a constructor is always something the file holds
 RebuildSound == \A c \in MCComponents : Rebuilt(c) \subseteq c.written
+\* the component sweep of the driver is in the "distinct" input class of MC_OutputWr for every component: every
+\* constructor keyword that the loader does not fill from elsewhere (and that is not explicitly exempted) is given a
+\* non-default value, and the numeric values of one component are pairwise distinct
+SweepComplete == \A c \in MCComponents : /\ (c.params \ (c.supplied \cup c.exempt)) \subseteq c.given
+                                         /\ c.distinct
 =============================================================================
